@@ -161,20 +161,19 @@ impl VouchedTime {
             return Err(other("local time is out of range"));
         }
 
-        let local_time_ms = local_time_ms as u64;
         // if local_time - base_time in [-MAX_BACKWARD_DISCREPANCY_MS, MAX_FORWARD_DISCREPANCY_MS]
         //
-        // We subtract base_time_ns, and add MAX_BACKWARD_DISCREPANCY_MS.  This maps the
-        // allowed range to `[0, MAX_BACKWARD_DISCREPANCY_MS + MAX_FORWARD_DISCREPANCY_MS]`.
-        if local_time_ms
-            .wrapping_sub(base_time_ms)
-            .wrapping_add(MAX_BACKWARD_DISCREPANCY_MS)
-            <= MAX_BACKWARD_DISCREPANCY_MS + MAX_FORWARD_DISCREPANCY_MS
+        // Both operands are in [0, u64::MAX], so the difference is exact in
+        // i128 (a wrapping u64 difference would accept a local time just
+        // after the epoch with a base time just below 2^64).
+        let delta_ms = local_time_ms - base_time_ms as i128;
+        if delta_ms >= -(MAX_BACKWARD_DISCREPANCY_MS as i128)
+            && delta_ms <= MAX_FORWARD_DISCREPANCY_MS as i128
         {
             return Ok(());
         }
 
-        if local_time_ms > base_time_ms {
+        if delta_ms > 0 {
             return Err(other("local_time is too far ahead of base_time"));
         }
 
